@@ -108,7 +108,8 @@ PruneViol(x) ==
           (IF DOMAIN ViewOf(x.after).core # DOMAIN ViewOf(x.before).core THEN {"C12_SamePending"}
            ELSE (IF \E t \in RealCore(x.after) : CoreRec(x.after, t).nd # CoreRec(x.before, t).nd THEN {"C12_SameDeps"} ELSE {}) \cup
                 (IF \E t \in RealCore(x.after) : CoreRec(x.after, t).inst # CoreRec(x.before, t).inst THEN {"C12_SameInstanceIds"} ELSE {}) \cup
-                (IF \E t \in RealCore(x.after) : CoreRec(x.after, t).crash # CoreRec(x.before, t).crash THEN {"C12_SameCrashCounts"} ELSE {})) \cup
+                \* (C07: what counts towards the crash limit is not forgotten by a prune either)
+                (IF \E t \in RealCore(x.after) : CoreRec(x.after, t).crash # CoreRec(x.before, t).crash THEN {"C12_SameCrashCounts", "C07_CrashSurvivesPrune"} ELSE {})) \cup
           (IF ViewOf(x.after).queues # ViewOf(x.before).queues THEN {"C12_SameQueues"} ELSE {}))) \cup
     (IF MustKeep(x.after_journal, lj, lw) = MustKeep(x.before_journal, lj, lw)
         /\ \A i \in DOMAIN x.after_journal : DerivedFrom(x.after_journal[i], x.before_journal)
